@@ -7,10 +7,10 @@ from ..gram import RefGrammar, print_grammar, duplicate_empty_alternatives, coll
 from .. import ref as R, gen
 from .c01 import model as c01_model
 
-NBATCH = {'quick': 12, 'thorough': 48}
+NBATCH = {'quick': 12, 'thorough': 32}
 BUDGET_S = {'quick': 80, 'thorough': 180}
 PER_BATCH = {'quick': 60, 'thorough': 600}
-HASHSEEDS = {'quick': [1, 2, 3], 'thorough': [1, 2, 3, 4, 5, 6, 7, 8, 9, 10, 11, 12, 13, 14, 15]}
+HASHSEEDS = {'quick': [1, 2, 3], 'thorough': [1, 2, 3, 5, 8, 13, 21]}
 FLAKY_IS_VIOLATION = True
 FLOORS = {
     'quick': {'distinct_nontrivial': 500, 'feature:prio-normal': 200, 'feature:prio-invert': 200, 'feature:prio-none': 100,
